@@ -90,14 +90,14 @@ def targets():
         mk('mad_marg_a0', Q + G + M + DT, lambda A, v: (lambda f: go(f, f.updateMARG(q(v), g(v), _z(), m(v), dt=v.dt)))(mad(A))),
         mk('mad_marg_am0', Q + G + DT, lambda A, v: (lambda f: go(f, f.updateMARG(q(v), g(v), _z(), _z(), dt=v.dt)))(mad(A))),
         mk('mad_marg_m0', Q + G + AC + DT, lambda A, v: (lambda f: [f.updateMARG(q(v), g(v), a(v), _z(), dt=v.dt),
-                                                                    f.updateIMU(A.Quaternion(q(v)), g(v), a(v)), f.gain])(mad(A)),
-           'mag dropout, acc valid: [updateMARG(q,gyr,acc,0,dt), updateIMU(Quaternion(q),gyr,acc), gain afterwards] (9 numbers)'),
+                                                                    f.updateIMU(A.Quaternion(q(v)), g(v), a(v), dt=v.dt), f.gain])(mad(A)),
+           'mag dropout, acc valid: [updateMARG(q,gyr,acc,0,dt), updateIMU(Quaternion(q),gyr,acc,dt), gain afterwards] (9 numbers)'),
         # Mahony (with the carried gyro bias)
         mk('mah_imu_a0', Q + G + BB + DT, lambda A, v: (lambda f: mo(f, f.updateIMU(q(v), g(v), _z(), dt=v.dt)))(mah(A, v))),
         mk('mah_marg_a0', Q + G + M + BB + DT, lambda A, v: (lambda f: mo(f, f.updateMARG(q(v), g(v), _z(), m(v), dt=v.dt)))(mah(A, v))),
         mk('mah_marg_am0', Q + G + BB + DT, lambda A, v: (lambda f: mo(f, f.updateMARG(q(v), g(v), _z(), _z(), dt=v.dt)))(mah(A, v))),
         mk('mah_marg_m0', Q + G + AC + BB + DT, lambda A, v: [(lambda f: mo(f, f.updateMARG(q(v), g(v), a(v), _z(), dt=v.dt)))(mah(A, v)),
-                                                              (lambda f: mo(f, f.updateIMU(A.Quaternion(q(v)), g(v), a(v))))(mah(A, v))],
+                                                              (lambda f: mo(f, f.updateIMU(A.Quaternion(q(v)), g(v), a(v), dt=v.dt)))(mah(A, v))],
            'mag dropout, acc valid: [updateMARG(..,0,dt) + bias, updateIMU(Quaternion(q),..) + bias] on two fresh filters (14 numbers)'),
         # AQUA
         mk('aqua_imu_a0', Q + G + DT, lambda A, v: F(A).AQUA().updateIMU(q(v), g(v), _z(), dt=v.dt)),
@@ -182,12 +182,12 @@ def _impl_table():
         'mad_marg_a0': lambda c: (lambda f: go(f, f.updateMARG(q(c), g(c), z(), m(c), dt=c['dt'])))(mad()),
         'mad_marg_am0': lambda c: (lambda f: go(f, f.updateMARG(q(c), g(c), z(), z(), dt=c['dt'])))(mad()),
         'mad_marg_m0': lambda c: (lambda f: [f.updateMARG(q(c), g(c), a(c), z(), dt=c['dt']),
-                                             f.updateIMU(ahrs.Quaternion(q(c)), g(c), a(c)), f.gain])(mad()),
+                                             f.updateIMU(ahrs.Quaternion(q(c)), g(c), a(c), dt=c['dt']), f.gain])(mad()),
         'mah_imu_a0': lambda c: (lambda f: mo(f, f.updateIMU(q(c), g(c), z(), dt=c['dt'])))(mah(c)),
         'mah_marg_a0': lambda c: (lambda f: mo(f, f.updateMARG(q(c), g(c), z(), m(c), dt=c['dt'])))(mah(c)),
         'mah_marg_am0': lambda c: (lambda f: mo(f, f.updateMARG(q(c), g(c), z(), z(), dt=c['dt'])))(mah(c)),
         'mah_marg_m0': lambda c: [(lambda f: mo(f, f.updateMARG(q(c), g(c), a(c), z(), dt=c['dt'])))(mah(c)),
-                                  (lambda f: mo(f, f.updateIMU(ahrs.Quaternion(q(c)), g(c), a(c))))(mah(c))],
+                                  (lambda f: mo(f, f.updateIMU(ahrs.Quaternion(q(c)), g(c), a(c), dt=c['dt'])))(mah(c))],
         'aqua_imu_a0': lambda c: F.AQUA().updateIMU(q(c), g(c), z(), dt=c['dt']),
         'aqua_marg_a0': lambda c: F.AQUA().updateMARG(q(c), g(c), z(), m(c), dt=c['dt']),
         'aqua_marg_am0': lambda c: F.AQUA().updateMARG(q(c), g(c), z(), z(), dt=c['dt']),
